@@ -49,6 +49,11 @@ for _mk, _parser, _sel in [
     ('<html><body><input id="1" type="checkbox" checked><input id="2"></body></html>', 'html.parser', ':checked, :root'),
     ('<r xmlns:x="urn:x"><x:a id="1"/><a id="2"/></r>', 'xml', 'a'),
     ('<p id="1" lang="en">t</p>', 'html5lib', 'p:lang(en):-soup-contains(t)'),
+    ('<!DOCTYPE html><html id="h"><body><p id="1"><!-- x --></p><div id="2">a<!--secret--></div><p id="3"><![CDATA[c]]></p></body></html>',
+     'html.parser', 'p:empty, :root, div:-soup-contains(secret), p:-soup-contains-own(c)'),
+    ('<?xml version="1.0"?><!DOCTYPE r><r id="r"><?pi x?><a id="1"><!--c--></a><b id="2" dir="auto">x</b></r>', 'xml', 'a:empty, :root, b:dir(ltr)'),
+    ('<form id="f"><input id="1" type="radio" name="g"><input id="2" type="submit"><input id="3" type="number" min="1" value="0"></form>',
+     'lxml', ':indeterminate, :default, :out-of-range, :enabled'),
 ]:
     _soup = BeautifulSoup(_mk, _parser)
     _a = [e.get('id') for e in _soup.select(_sel)]
